@@ -20,7 +20,9 @@ def case_st(draw):
     delta = draw(st.sampled_from([-2, -1, 0, 1, 2, 2, 1, 17, 300]))
     nsec = draw(st.sampled_from([1, 2, 3, 5, 19]))
     rem = draw(st.sampled_from([0, 1, 255]))
-    c = {"kind": kind, "delta": delta, "nsec": nsec, "rem": rem, "seed": draw(st.integers(0, 9999))}
+    # `ui`: a presentation option placed AFTER --drive on the same command line (it must not disturb the selection)
+    c = {"kind": kind, "delta": delta, "nsec": nsec, "rem": rem, "seed": draw(st.integers(0, 9999)),
+         "ui": draw(st.sampled_from([None, None, "acorn", "opus", "watford"]))}
     if kind == "opus":
         c["tracks"] = draw(st.sampled_from([35, 40, 80]))
         nvol = draw(st.integers(2 if c["tracks"] == 80 else 1, 8))
@@ -212,9 +214,14 @@ class C17(CheckBase):
                     r = runtool.run([dfs] + opts + ["--file", img] + cmd, sb.path)
                     v.evaluations += 1
                     self._verdict(v, r, inside, render(expect), cmd[0] + " " + fq, label, delta, r.stdout)
+            uiopt = ["--ui", case["ui"]] if case.get("ui") else []
+            # ---- the same file through the current drive (--drive, then possibly --ui) and an unqualified name
+            r = runtool.run([dfs] + opts + ["--file", img, "--drive", vsel] + uiopt + ["type", "--binary", "PROBE"], sb.path)
+            v.evaluations += 1
+            self._verdict(v, r, inside, expect, "--drive %s %s type PROBE" % (vsel, " ".join(uiopt)), label, delta, r.stdout)
             # ---- extract-files
             dest = sb.mkdir("out")
-            r = runtool.run([dfs] + opts + ["--file", img, "--drive", vsel, "extract-files", dest], sb.path)
+            r = runtool.run([dfs] + opts + ["--file", img, "--drive", vsel] + uiopt + ["extract-files", dest], sb.path)
             v.evaluations += 1
             try:
                 with open(os.path.join(dest, "PROBE"), "rb") as fh:
